@@ -46,6 +46,8 @@ def run(chk):
     # when no closing quote follows on the line
     texts += ['set_tx_meta("dir", "C:\\")\n', 'vars { string $s = meta(@acc, "\\") }\nset_tx_meta("k", $s)\n', 'set_tx_meta("k", "x\\")',
               'set_tx_meta("a\\", "b")\n', 'set_tx_meta("\\\\", "\\\\\\")\n', 'set_account_meta(@a, "k", "\\\"\\")\n']
+    texts += ["send [USD 1] (source = @world destination = { %s to @a remaining kept })" % z for z in ("0/0", "00 / 000", "0 /0", "0/ 00")]
+    texts += ["set_tx_meta(\"k\", 0/0)", "send [USD 1] (source = { 0/0 from @a remaining from @world } destination = @b)"]
     # texts that look blank: only characters some library calls whitespace; the grammar skips blank, tab, CR, LF only
     lookalikes = ["\f", "\v", "\u0085", "\u00a0", "\u1680", "\u2000", "\u2003", "\u2028", "\u2029", "\u202f", "\u205f", "\u3000", "\ufeff", "\u200b"]
     for w in lookalikes:
